@@ -37,9 +37,17 @@ def work_compress(task):
         if np.shape(v) != (m,) or not np.array_equal(v, want):
             acc.fail(case, "compressed form is not the row-major upper triangle")
             continue
+        # hold the compressed form, compress another matrix of the same size, then use the first
+        A2 = A * 2.0 + 7.0
+        v2 = mc.compress_matrix(A2)
+        if not np.array_equal(v, want):
+            acc.fail(case, "the compressed form of A changed when another matrix of the same size was compressed")
+        R2 = mc.reinflate_matrix(v2)
         B = mc.reinflate_matrix(v)
         if np.shape(B) != (n, n) or not np.array_equal(B, A):
             acc.fail(case, "reinflate(compress(A)) != A")
+        if not np.array_equal(R2, A2) or np.shares_memory(B, R2) or np.shares_memory(v, v2):
+            acc.fail(case, "results of two compress / reinflate calls share memory or differ from their inputs")
         # the other direction, on an arbitrary vector of distinct values (negative, non-monotone)
         vec = ((np.arange(m, dtype=np.float64) * 7919) % 104729) - 50000.5
         keepv = vec.copy()
